@@ -175,6 +175,14 @@ def models_part(ctx, rng, months, uniform):
     glat, glon = g.find_lat_long_along_traj(np.zeros_like(bt))
     lats = np.concatenate([lats, np.asarray(glat)])
     lons = np.concatenate([lons, np.asarray(glon)])
+    # target mode hands the detector's configured longitude to the cloud model unchanged, and a
+    # configured longitude may follow the 0..360 deg convention (or be negative beyond -180 deg):
+    # the same meridians, hence the same map cells
+    nx = ctx.pick(400, 4000)
+    lats = np.concatenate([lats, rng.uniform(-math.pi / 2, math.pi / 2, nx)])
+    xl = np.where(rng.random(nx) < 0.7, rng.uniform(math.pi, 2 * math.pi, nx), rng.uniform(-2 * math.pi, -math.pi, nx))
+    xl[:6] = [math.radians(200.0), math.radians(359.99), 2 * math.pi, math.radians(-200.0), float(np.nextafter(math.pi, 4)), math.radians(181.0)]
+    lons = np.concatenate([lons, xl])
     for model, want in () if not uniform else ((Simulation.NoCloud(), None), (Simulation.MonoCloud(altitude=3.7), 3.7), (Simulation.MonoCloud(altitude=-math.inf), -math.inf), (Simulation.MonoCloud(altitude=12.0), 12.0)):
         c = NssConfig()
         c.simulation.cloud_model = model
@@ -249,12 +257,13 @@ def fullrun_part(ctx, rng):
     from .. import fullrun
 
     inject.require_safe()
-    for mode, n in (("Diffuse", 150), ("Target", 2500)):
+    for mode, n, dlon in (("Diffuse", 150, 2.4), ("Target", 2500, 2.4), ("Target", 2500, math.radians(200.0)), ("Diffuse", 150, math.radians(-190.0))):
         cfg = NssConfig()
         cfg.simulation.mode = mode
         cfg.simulation.thrown_events = n
         cfg.simulation.cloud_model = Simulation.PressureMapCloud(month=int(rng.integers(1, 13)))
-        cfg.detector.initial_position.latitude, cfg.detector.initial_position.longitude = 0.6, 2.4
+        # (a detector longitude in the 0..360 deg convention / below -180 deg is a valid position)
+        cfg.detector.initial_position.latitude, cfg.detector.initial_position.longitude = 0.6, dlon
         cfg.detector.radio.enable = False
         cfg.simulation.spectrum.log_nu_energy = 12.0  # long decay lengths: more decays above 20 km
         asked = []
@@ -270,7 +279,7 @@ def fullrun_part(ctx, rng):
             sim, log = fullrun.compute(cfg, seed=int(rng.integers(2**31)))
         finally:
             CloudTopHeight.__call__ = o_call
-        wit = {"mode": mode, "month": cfg.simulation.cloud_model.month}
+        wit = {"mode": mode, "month": cfg.simulation.cloud_model.month, "detector_longitude_rad": dlon}
         if log.exception is not None:
             ctx.exception("raises", f"compute() with a pressure-map cloud raised ({mode})", log.exception, wit)
             continue
